@@ -27,6 +27,14 @@ CLAIMED = {
                   "ASTs on every run and discharged by z3/cvc5.",
              note="Trusted: h5py selection semantics (dset[idx] == NumPy for in-range ints and step>=1 slices), pyvc encoding of Python "
                   "(ints mathematical), z3/cvc5.", ref="7 C06"),
+ "C15": dict(text="Deductive proof of the calibrated-read branch table of DataArray._read_data (calibration applies exactly when "
+                  "coefficients or a non-zero origin are stored; polynomial(raw - origin) in double precision on the SAME selection "
+                  "that is passed to the raw read; stored values in the stored type otherwise; single values as shape (1,)), of "
+                  "util.apply_polynomial against the polynomial spec function, that DataView reads go through the calibrated reader, and "
+                  "that setting coefficients / origin never writes the data dataset.",
+             note="Trusted: numpy (np.array, astype, elementwise `-`, polyval, a[:] = b as uninterpreted functions with the stated "
+                  "facts), h5py dataset read/write primitives over the abstract store, floats as reals; in-place array updates are "
+                  "modelled by rebinding local aliases.", ref="7 C15"),
 }
 NA_REASON = "check not built yet in this round (design in DESIGN.md section 7); will be claimed once its contracts discharge"
 checks, na = [], []
